@@ -102,7 +102,7 @@ def pow2_geometry(typ, k, rng):
         if (2 ** k + prefix) % n:
             continue
         reclen = (2 ** k + prefix) // n
-        if reclen > prefix and (reclen - prefix) % bps == 0:
+        if prefix < reclen <= 999999 and (reclen - prefix) % bps == 0:  # the record length field has six digits
             sols.append((n, (reclen - prefix) // bps))
     if not sols:
         return None
